@@ -217,26 +217,67 @@ def axiom_audit(prop_module, names):
 
 # ---------------------------------------------------------------- running shards
 
-def run_pipeline(harness_cmds, driver_cmd, cwd=None, timeout=3000, env=None):
-    """run each harness command piped into its own driver process; return list of driver outputs"""
+PIPE_TIMEOUT = 3000      # seconds for all harness|driver pipelines of one call together; Check.__init__ lowers it for the quick tier
+
+
+def run_pipeline(harness_cmds, driver_cmd, cwd=None, timeout=None, env=None):
+    """run each harness command piped into its own driver process (at most 2*NCPU pipelines at a time); return list of
+    driver outputs.  A pipeline that has not finished when the deadline passes (a change to the code under test can make
+    the real code loop) is killed and reported as a harness error, never waited for indefinitely."""
     e = dict(os.environ)
     e.setdefault("ASAN_OPTIONS", "detect_leaks=0")
     if env:
         e.update(env)
-    procs = []
-    for hc in harness_cmds:
-        h = subprocess.Popen(hc, shell=True, cwd=cwd, env=e, stdout=subprocess.PIPE, stderr=subprocess.PIPE)
-        d = subprocess.Popen(driver_cmd, shell=True, cwd=cwd, env=e, stdin=h.stdout, stdout=subprocess.PIPE,
-                             stderr=subprocess.PIPE)
+    deadline = time.time() + (timeout or PIPE_TIMEOUT)
+    pending = list(enumerate(harness_cmds))
+    running, outs = [], [None] * len(harness_cmds)
+
+    def start(i, hc):
+        fh = tempfile.TemporaryFile()
+        h = subprocess.Popen(hc, shell=True, cwd=cwd, env=e, stdout=subprocess.PIPE, stderr=fh, start_new_session=True)
+        h.errfile = fh
+        fo, fe = tempfile.TemporaryFile(), tempfile.TemporaryFile()
+        d = subprocess.Popen(driver_cmd, shell=True, cwd=cwd, env=e, stdin=h.stdout, stdout=fo, stderr=fe, start_new_session=True)
         h.stdout.close()
-        procs.append((h, d))
-    outs = []
-    for h, d in procs:
-        dout, derr = d.communicate(timeout=timeout)
-        herr = h.stderr.read()
+        running.append((i, hc, h, d, fo, fe))
+
+    def finish(i, hc, h, d, fo, fe, timed_out):
+        if timed_out:
+            for pr in (h, d):
+                try:
+                    os.killpg(pr.pid, 9)
+                except OSError:
+                    pass
+        d.wait()
         h.wait()
-        outs.append({"out": dout.decode("utf-8", "replace"), "derr": derr.decode("utf-8", "replace"),
-                     "herr": herr.decode("utf-8", "replace"), "hrc": h.returncode, "drc": d.returncode})
+        fo.seek(0)
+        fe.seek(0)
+        h.errfile.seek(0)
+        herr = h.errfile.read()[-20000:].decode("utf-8", "replace")
+        h.errfile.close()
+        if timed_out:
+            herr = "TIMEOUT: the pipeline did not finish within the deadline and was killed: " + hc[-300:] + "\n" + herr[-1500:]
+        outs[i] = {"out": fo.read().decode("utf-8", "replace"), "derr": fe.read().decode("utf-8", "replace"),
+                   "herr": herr, "hrc": (-9 if timed_out else h.returncode), "drc": (0 if timed_out else d.returncode)}
+        fo.close()
+        fe.close()
+
+    maxpar = 2 * NCPU
+    while pending or running:
+        while pending and len(running) < maxpar:
+            start(*pending.pop(0))
+        still = []
+        for r in running:
+            i, hc, h, d, fo, fe = r
+            if d.poll() is not None and h.poll() is not None:
+                finish(*r, False)
+            elif time.time() > deadline:
+                finish(*r, True)
+            else:
+                still.append(r)
+        running[:] = still
+        if running:
+            time.sleep(0.05)
     return outs
 
 
@@ -266,6 +307,8 @@ class Check:
         a = ap.parse_args(argv)
         self.prop = prop
         self.tier = "thorough" if a.tier.startswith("t") else "quick"
+        global PIPE_TIMEOUT
+        PIPE_TIMEOUT = 900 if self.tier == "quick" else 3600
         self.seed = a.seed
         self.replay = a.replay
         self.t0 = time.time()
